@@ -36,6 +36,9 @@ _BEFORE: Dict[str, Any] = {}
 def ch_setup() -> None:
     from vtools import chpatches
 
+    if P.get("prefix") is not None:
+        hcommon.install_text_models()
+        return
     chpatches.install(slices=True, ints=False)
     chpatches.install_int_repr_placeholder()
 
@@ -141,6 +144,43 @@ def h_interleave() -> Union[bool, str]:
     return True
 
 
+def h_compile_frame() -> Union[bool, str]:
+    """Frame obligation for compile(): no attribute of the environment or of its (shared) parser is written while a query is
+    compiled - so concurrent compile() calls on one environment cannot disturb each other.  The query text has a symbolic hole."""
+    from vtools import holes
+
+    q = P["prefix"] + holes.fragment() + P["suffix"]
+    env = JSONPathEnvironment()
+    writes: List[str] = []
+    base = type(env.parser)
+
+    class Watched(base):  # type: ignore[misc, valid-type]
+        def __setattr__(self, name, value):
+            writes.append("parser." + name)
+            base.__setattr__(self, name, value)
+
+    env.parser.__class__ = Watched
+    ebase = type(env)
+
+    class WatchedEnv(ebase):  # type: ignore[misc, valid-type]
+        def __setattr__(self, name, value):
+            writes.append("env." + name)
+            ebase.__setattr__(self, name, value)
+
+    env.__class__ = WatchedEnv
+    before = sorted((k, id(v)) for k, v in vars(env.parser).items())
+    regs = dict(env.function_extensions)
+    try:
+        env.compile(q)
+    except JSONPathError:
+        pass
+    if writes:
+        return "compile(%r) wrote shared state: %r" % (q, writes[:4])
+    if sorted((k, id(v)) for k, v in vars(env.parser).items()) != before or dict(env.function_extensions) != regs:
+        return "compile(%r) changed the parser / registry" % (q,)
+    return True
+
+
 def h_reach() -> bool:
     """Reachability twin: must be refuted (two iterators over different documents do yield different sequences)."""
     docs = _docs()
@@ -160,11 +200,20 @@ SPECS = [
 
 def obligations(tier: str):
     obls = []
-    t = 600 if tier == "quick" else 3000
+    t = 600 if tier == "quick" else 1200
     steps = 4 if tier == "quick" else 7
     for si, spec in enumerate(SPECS):
         for k in (2, 3):
             st = steps if k == 2 else (3 if tier == "quick" else 6)
             obls.append({"id": "interleave.spec%d.k%d.steps%d" % (si, k, st), "func": "h_interleave", "params": {"spec": spec, "iterators": k, "steps": st}, "timeout": t})
+    from vtools.corpus import SEEDS
+
+    frame_seeds = [s for s in SEEDS if "?" in s][:: (3 if tier == "quick" else 1)] + ["$.a[0]", "$..*"]
+    from vtools import holes
+
+    for j, (pre, suf) in enumerate(holes.hole_instances(frame_seeds, replace=(1,))):
+        if tier == "quick" and j % 3 != 0:
+            continue
+        obls.append({"id": "compile_frame%04d" % j, "func": "h_compile_frame", "params": {"prefix": pre, "suffix": suf, "k": 1}, "timeout": 300})
     obls.append({"id": "reach", "func": "h_reach", "timeout": 60, "expect": "refuted"})
     return obls
